@@ -183,8 +183,12 @@ class Classifier:
 
         def always_true(e):
             v = self.iv(e)
+            if v is None:
+                return False
+            from pyanalyze.value import flatten_values
+
             try:
-                return v is not None and get_boolability(v) is Boolability.type_always_true
+                return any(get_boolability(x) is Boolability.type_always_true for x in flatten_values(v, unwrap_annotated=True))
             except Exception:
                 return False
 
@@ -296,4 +300,15 @@ class Classifier:
                             stored.add(n.id)
                 if has_break_loop and (stored & V_):
                     return "C01-break-in-try-loses-defs"
+        # --- constraints carried by the members of a union value are inverted jointly:
+        #     x = <IfExp / BoolOp whose branches are conditions on v>; ... if x: / if not x: ...
+        COND = (ast.Compare, ast.BoolOp)
+        for names, value, st in assignments(fn):
+            if isinstance(st, (ast.Assign, ast.AnnAssign, ast.NamedExpr)) and any(isinstance(n, (ast.IfExp, ast.BoolOp)) for n in ast.walk(value)):
+                conds = [n for n in ast.walk(value) if isinstance(n, COND) or (isinstance(n, ast.Call) and isinstance(n.func, ast.Name) and n.func.id == "isinstance")
+                         or (isinstance(n, ast.UnaryOp) and isinstance(n.op, ast.Not))]
+                if any(_names(c) & V_ for c in conds):
+                    for t in flat:
+                        if _names(t) & names and getattr(t, "lineno", 0) >= st.lineno:
+                            return "C01-union-value-constraints-inverted"
         return None
